@@ -12,9 +12,16 @@
      `C06_fault_endSeq_expectEnd`, `C06_fault_reading` — up to and including the tokenizer a run on a
      stream failing after k bytes either reports the I/O error or returns exactly what the fault-free
      run returns; a fault is never turned into a value, a syntax error or an end-of-input error.
-     PARTIAL: the fault theorem stops below `next_value` (the state-dependent fuel of the model
-     differs between the two runs); the rest of that clause is carried by the fault-at-every-offset
-     correspondence and oracle.
+     Whole parser (LexprModel/Proofs/FaultParse.lean, FaultParse2, FaultParse3; imported here):
+     `C06_fault_value/_datum/_expectValue/_expectDatum/_expectEnd/_fromTrait/_fromTraitDatum`,
+     `C06_fault_fromReader` — for every entry point, the run on a stream that delivers `pre` and then
+     fails either reports the I/O error (and the parser is dead: every later call reports it again) or
+     has exactly the outcome of the run on the fault-free stream `pre ++ tail`; `C06_fault_history`,
+     `C06_fault_iterate`, `C06_fault_prefix`, `C06_fault_no_io` — item for item over any history of
+     calls; `C06_never_swallowed` — an item of the faulty run is the I/O error or the fault-free run's
+     item: never a value, `None`, or an end-of-input error of its own; `C06_fault_demanded`,
+     `C06_fault_only_beyond` — if the fault-free run leaves more than |tail| bytes unread after every
+     call, the fault is never seen, and an I/O error implies the fault-free call read into the tail.
   Chunking, `Interrupted` and `BufReader` are std behaviour and not modelled (compared directly).
   Proved here: the two hand-duplicated symbol scanners stop at the same bytes; a read
   fault surfaces as an I/O error from the primitives and is never reported as end of input; the
@@ -22,6 +29,7 @@
 -/
 import LexprModel.Lex
 import LexprModel.Proofs.Sources
+import LexprModel.Proofs.FaultParse3
 namespace Lexpr
 namespace Parse
 
@@ -50,6 +58,13 @@ theorem C06_next_mode (s : St) (b : UInt8) (bs : List UInt8) (h : s.rd.rest = b 
 
 /-- an I/O error is in the I/O category, never EOF or syntax -/
 theorem C06_io_category : Err.io.category = .io := rfl
+
+/-- **C06_read_errors_surface** (the read-error clause of the property): over any history of calls on
+    one parser, each item a failing stream yields is either the I/O error or exactly the item the
+    fault-free stream yields at that position; a fault never produces a value, `None` or an EOF error. -/
+theorem C06_read_errors_surface (cfg : Cfg) (ops : List Op) (pre tail : List UInt8) :
+    FaultHist (runHistory cfg ops (initSt .io (pre ++ tail))) (runHistory cfg ops (initSt .io pre true)) :=
+  C06_fault_history cfg ops pre tail
 
 example : symLen .io (asc "abc def") = 3 ∧ symLen .slice (asc "abc def") = 3 := by decide
 
